@@ -23,7 +23,7 @@ RULE = (
     "every job without a result row is reported missing; non-trivial = at the cancel instant >= 1 job was still "
     "unsubmitted and >= 1 batch was queued or running; distinct by hash of the case"
 )
-RULE += " Later additions (DESIGN.md 9): " + 'up to 2 unusual-SLURM-state windows before the cancel; a cancel-jobs that exits 0 must leave the submission canceled or complete.'
+RULE += " Later additions (DESIGN.md 9): " + 'up to 2 unusual-SLURM-state windows before the cancel; a cancel-jobs that exits 0 must leave the submission canceled or complete; in 4/7 of the cases the n-th scancel request fails and that batch goes on running -- the submission must not be declared complete (its jobs reported missing) while a batch is queued or running its jobs.'
 ASSUMPTIONS = C.WORLD_ASSUMPTIONS + [
     "scancel removes a PENDING batch and kills a RUNNING one (its node process and job processes die at once)",
 ]
@@ -47,6 +47,8 @@ def cancel_cases(draw):
         "exotic": draw(st.lists(st.fixed_dictionaries({"at": st.integers(5, 150), "steps": st.integers(10, 120),
                                                        "which": st.integers(0, 7)}), max_size=2)),
         "cancel_after": draw(st.integers(0, 120)),  # world steps after the submission was created
+        # the n-th scancel request fails (the controller does not answer) and that batch goes on running
+        "scancel_fail": draw(st.sampled_from([None, None, None, 1, 1, 2, 3])),
     }
 
 
@@ -62,7 +64,8 @@ def _cmd(sim, kind):
 
 def run_case(case):
     scn = case["scn"]
-    with H.Sim(scn, schedule=case["schedule"], snapshots=True, exotic=case.get("exotic", ())) as sim:
+    faults = [{"kind": "scancel_fail", "nth": case["scancel_fail"]}] if case.get("scancel_fail") else []
+    with H.Sim(scn, schedule=case["schedule"], snapshots=True, exotic=case.get("exotic", ()), faults=faults) as sim:
         w = sim.w
         state = {"canceled_cmd": False}
 
@@ -108,6 +111,21 @@ def run_case(case):
             sim.user_cmd(["try-submit-jobs", sim.out], name=f"recover{sim.recovery_rounds}")
         res = C.base_result(case, sim, outcome)
         v = res["violations"]
+        refused = any(h[0] == "scancel_fail" for h in w.fault_hits)
+        if refused:
+            res["classes"].append("a_scancel_request_failed")
+        # "jobs that never ran are reported missing": a canceled submission is not declared complete (its unfinished jobs
+        # reported missing) while one of its batches is alive for certain -- queued, or a job process running right now
+        for s in w.snaps:
+            try:
+                cc = json.loads(s["files"].get("cluster_config.json") or "null")
+            except ValueError:
+                cc = None
+            if cc and cc.get("is_complete") and s.get("alive"):
+                v.append(C.viol("C14:complete-while-batch-alive", f"snapshot at log index {s['i']} (by {s['by']}): the submission is "
+                                f"marked complete (canceled={cc.get('is_canceled')}) while batches {s['alive']} are queued or running "
+                                f"their jobs; results.json: {s.get('results_json')}"))
+                break
         # the instant the flag became visible
         flag = None
         for s in w.snaps:
@@ -155,7 +173,7 @@ def run_case(case):
             if jid not in scanceled:
                 v.append(C.viol("C14:active-batch-not-canceled", f"batch id {jid} was in hpc_job_ids when the submission was "
                                 f"marked canceled but scancel was never called for it (scancel ids: {scanceled})"))
-        if flag["active"]:
+        if flag["active"] and not refused:
             v.append(C.viol("C14:batch-still-active-at-cancel", f"scheduler still holds queued/running batches {flag['active']} "
                             f"when the canceled flag became visible"))
         n_unsub = sum(1 for j in js["jobs"] if j["state"] == "not_submitted")
